@@ -41,7 +41,7 @@ func VerifC40_AssembleDKGResult() {
 	sigs := map[group.MemberIndex][]byte{}
 	supporters := 0
 	badSize := false
-	for m := n; m >= 1; m-- {
+	for m := 1; m <= n; m++ { // inserted ascending, iterated in reverse below: the conversion has to sort
 		if isOperating[m] && vBool() {
 			s := make([]byte, 65)
 			s[0], s[64] = byte(m), vU8()
